@@ -391,6 +391,10 @@ class MCSRules(LockModel):
         elif bad is None:
             self.sink.ok('MCS.WAIT', key, loc_of(last), 'exit condition of the wait implies it on all %d cells' % n)
             self.acq_site('C08.ACQ', fn, p, last, 'wait load certifies that the predecessors released')
+            if mode == 'X':
+                self.wait_exact(fn, p, ctx, last, name, lambda w: w.x == 0 and w.six == 0 and w.s == (0, 0), 'X, SIX and S of the predecessors are clear')
+            else:
+                self.wait_exact(fn, p, ctx, last, name, lambda w: w.x == 0 and w.six == 0, 'X and SIX of the predecessors are clear (shared holders are compatible)')
         elif bad[0] == 'V':
             self.sink.bad('MCS.WAIT', key, loc_of(last), bad[1])
         else:
@@ -522,7 +526,9 @@ class MCSRules(LockModel):
                 n += 1
                 und_any = und_any or bool(und)
                 w = env[sym]
-                if w.x != 0:
+                # in this design a joiner also waits for SIX: the head's UpgradeToX drains only the shared
+                # holders *ahead* of it (its own node), not the joiners of its own group
+                if w.x != 0 or w.six != 0:
                     ok_all = False
                     break
                 if k == 'LOCK' and e is not arr and w.rest != env[cur].rest:
@@ -531,12 +537,15 @@ class MCSRules(LockModel):
             if n and ok_all and k in ('LOCK', 'VIA_LOCK_NEXT'):
                 cert = (e, k)
                 break
-        key = '%s (join) granted only after X of the joined group is certified clear' % name
+        key = '%s (join) granted only after X and SIX of the joined group are certified clear' % name
         if cert is None:
             (self.sink.unsup if und_any else self.sink.bad)('MCS.WAIT', key, '%s:%s' % (fn['file'], p.ret_line),
-                                                            'no read on the path certifies X=0 for the joined group')
+                                                            'no read on the path certifies X=0 and SIX=0 for the joined group (the head\'s UpgradeToX does not wait for joiners of its own group)')
             return
         e, k = cert
+        if e is not arr:
+            self.wait_exact(fn, p, ctx, e, name + ' (join)', lambda w: w.x == 0 and w.six == 0 and w.s[0] >= 1,
+                            'X and SIX clear (the shared count contains the waiter itself and never drains while it waits)')
         self.sink.ok('MCS.WAIT', key, loc_of(e), 'certified by the %s at line %s on %s' % (e['op'], e['line'], {'LOCK': 'the lock word (group still tail)', 'VIA_LOCK_NEXT': 'the successor\'s node'}[k]))
         self.acq_site('C08.ACQ', fn, p, e, 'read that certifies X=0 for the joined group')
         if k == 'VIA_LOCK_NEXT':
@@ -548,6 +557,42 @@ class MCSRules(LockModel):
                            'link read from %s' % show(src['obj']) if src else 'link origin unknown')
             if src is not None:
                 self.acq_site('C08.ACQ', fn, p, src, 'link read (successor node contents are read through it)')
+
+    def wait_exact(self, fn, p, ctx, load_ev, name, enough, text):
+        """C02.WAITEXACT: the exit condition of a wait holds on every state in which the flags the
+        waiter must see cleared are clear; otherwise it also waits for something that is never cleared"""
+        sym = load_ev['result']
+        conds = [(c, o) for c, o, _ in p.conds if sym in symbols(c)]
+        if not conds:
+            return
+        others = set()
+        for c, _ in conds:
+            others |= (symbols(c) & word_symbols(p)) - {sym}
+        toks = self.ev.tokens_for([c for c, _ in conds], extra=[self.own_tok(ctx)] if ctx.own is not None else [])
+        stuck = None
+        for cell in self.ev.cells(toks):
+            if not enough(cell):
+                continue
+            if ctx.kind_of_sym.get(sym) == 'LOCK':
+                continue
+            verdict = True
+            for c, o in conds:
+                if symbols(c) & others:
+                    continue
+                r = self.ev.tri(c, {sym: cell})
+                if r is None:
+                    verdict = None
+                elif r != o:
+                    verdict = False
+                    break
+            if verdict is False:
+                stuck = cell
+                break
+        key = '%s wait ends as soon as %s' % (name, text.split(' (')[0])
+        if stuck is not None:
+            self.sink.bad('C02.WAITEXACT', key, loc_of(load_ev), 'the wait does not end on %r although %s' % (stuck, text))
+        else:
+            self.sink.ok('C02.WAITEXACT', key, loc_of(load_ev), 'exit condition holds on every cell with those flags clear')
 
     # ------------------------------------------------------------------ node life cycle (C12)
     def node_acquired(self, fn, p, node, published, name):
